@@ -1,6 +1,181 @@
 import EupsModel.Drv.Util
+import EupsModel.Model.Setup
+/-! Driver handler "c01" (shared by the C01, C02 and C04 harnesses): ops "setup" and "unsetup".
+
+Request
+```
+{"m":"c01","op":"setup"|"unsetup","fuel":N,
+ "db":{"decls":[{"name","ver","stack":k,"dir","table":[ACT…]}…],"tags":[[tag,name,ver,k]…]},
+ "env":{"recs":{name:[ver,k]},"dirs":{name:str},"paths":{var:[str…]},"vars":{var:str}},
+ "req":{"name","ver":VERREQ|null,"keep":bool,"max_depth":int,"inexact":bool,"tags":[str…],"path":[k…]}}
+ACT    = {"g":"always"|"exact"|"inexact","a":"prepend","var","vals":[{"own":bool,"val"}…],"append":bool}
+       | {"g",…,"a":"set","var","own":bool,"val"} | {"g",…,"a":"alias","key","val"}
+       | {"g",…,"a":"dep","name","opt":bool,"just":bool,"ver":VERREQ|null,"vexpr":EXPR|null,"tags":[str…],"keep":bool}
+VERREQ = {"v":version} | {"e":EXPR}        EXPR = [[op,version]…]   (alternatives joined by ||)
+```
+Strings of the environment are tagged here (`own (name,version) rel` when the string is the directory of a
+declared product or lies under it) and rendered back on output; this conversion is not part of any proof. -/
 namespace EupsModel.Drv.C01
-open Lean EupsModel EupsModel.Drv
-/-- placeholder until the C01 model exists -/
-def handle : Handler := fun _ => throw "model C01 not built"
+open Lean EupsModel EupsModel.Drv EupsModel.Setup
+
+def relOp (s : String) : Except String RelOp :=
+  match s with
+  | "<" => pure .lt | "<=" => pure .le | "==" => pure .eq | ">=" => pure .ge | ">" => pure .gt
+  | _ => throw s!"bad relational operator {s}"
+
+def exprOf (j : Json) : Except String VExpr := do
+  (← j.getArr?).toList.mapM fun t => do
+    let a ← t.getArr?
+    if a.size != 2 then throw "bad expression term"
+    pure (← relOp (← a[0]!.getStr?), Str.ofString (← a[1]!.getStr?))
+
+def optField (j : Json) (k : String) : Option Json :=
+  match j.getObjVal? k with
+  | .ok Json.null => none
+  | .ok v => some v
+  | .error _ => none
+
+def verReqOf (j : Json) : Except String VerReq := do
+  match optField j "v", optField j "e" with
+  | some v, none => pure (.explicit (Str.ofString (← v.getStr?)))
+  | none, some e => pure (.expr (← exprOf e))
+  | _, _ => throw "bad version request"
+
+def guardOf (s : String) : Except String Guard :=
+  match s with
+  | "always" => pure .always | "exact" => pure .exact | "inexact" => pure .inexact
+  | _ => throw s!"bad guard {s}"
+
+def valOf (j : Json) : Except String Val := do
+  let s ← jstr j "val"
+  if ← jbool j "own" then pure (.own s) else pure (.lit s)
+
+def actOf (j : Json) : Except String (Guard × Act) := do
+  let g ← guardOf (← (← j.getObjVal? "g").getStr?)
+  let a ← (← j.getObjVal? "a").getStr?
+  match a with
+  | "prepend" =>
+    let vals ← (← jarr j "vals").mapM valOf
+    if vals.isEmpty then throw "envPrepend without a value"
+    pure (g, .prepend (← jstr j "var") vals (← jbool j "append"))
+  | "set" => pure (g, .set (← jstr j "var") (← valOf j))
+  | "alias" => pure (g, .alias (← jstr j "key") (← jstr j "val"))
+  | "dep" =>
+    let ver ← match optField j "ver" with
+      | some v => pure (some (← verReqOf v))
+      | none => pure none
+    let vexpr ← match optField j "vexpr" with
+      | some v => pure (some (← exprOf v))
+      | none => pure none
+    pure (g, .dep (← jstr j "name") (← jbool j "opt") (← jbool j "just") ver vexpr (← jstrs j "tags") (← jbool j "keep"))
+  | _ => throw s!"unknown action {a}"
+
+def declOf (j : Json) : Except String Decl := do
+  pure ⟨← jstr j "name", (← jstr j "ver", ← jnat j "stack"), ← jstr j "dir", ← (← jarr j "table").mapM actOf⟩
+
+def dbOf (j : Json) : Except String Db := do
+  let decls ← (← jarr j "decls").mapM declOf
+  let tags ← (← jarr j "tags").mapM fun t => do
+    let a ← t.getArr?
+    if a.size != 4 then throw "bad tag entry"
+    pure (Str.ofString (← a[0]!.getStr?), Str.ofString (← a[1]!.getStr?), (Str.ofString (← a[2]!.getStr?), ← a[3]!.getNat?))
+  -- the tagging of elements needs distinct, non-nested directories and unique (name, version) pairs
+  for d in decls do
+    for d' in decls do
+      if d.prod == d'.prod && d != d' then throw "database declares a (name, version) pair twice"
+      if d.prod != d'.prod && d.dir != noneDir && (d.dir == d'.dir || (d.dir ++ [47]).isPrefixOf d'.dir) then
+        throw "product directories are not distinct and non-nested"
+  pure ⟨decls, tags⟩
+
+/-- string → tagged element -/
+def tagElem (db : Db) (s : Str) : Elem :=
+  match db.decls.find? (fun d => d.dir != noneDir && (s == d.dir || (d.dir ++ [47]).isPrefixOf s)) with
+  | some d => .own d.prod (s.drop d.dir.length)
+  | none => .foreign s
+
+def renderElem (db : Db) : Elem → Str
+  | .own p rel => (match db.lookup p with
+    | some d => d.dir
+    | none => Str.ofString "<undeclared>") ++ rel
+  | .foreign s => s
+
+def objList (j : Json) (k : String) : Except String (List (String × Json)) := do
+  pure (← (← j.getObjVal? k).getObj?).toList
+
+def envOf (db : Db) (j : Json) : Except String Setup.Env := do
+  let recs ← (← objList j "recs").mapM fun (k, v) => do
+    let a ← v.getArr?
+    if a.size != 2 then throw "bad record"
+    pure (Str.ofString k, ((Str.ofString (← a[0]!.getStr?), ← a[1]!.getNat?) : Ver))
+  let dirs ← (← objList j "dirs").mapM fun (k, v) => do
+    pure (Str.ofString k, tagElem db (Str.ofString (← v.getStr?)))
+  let paths ← (← objList j "paths").mapM fun (k, v) => do
+    let l ← (← v.getArr?).toList.mapM fun x => do pure (tagElem db (Str.ofString (← x.getStr?)))
+    pure (Str.ofString k, l)
+  let vars ← (← objList j "vars").mapM fun (k, v) => do
+    pure (Str.ofString k, tagElem db (Str.ofString (← v.getStr?)))
+  pure ⟨recs, dirs, paths, vars⟩
+
+def mkObjS {β : Type} (l : List (Str × β)) (f : β → Json) : Json :=
+  Json.mkObj (l.map fun (k, v) => (Str.toString k, f v))
+
+def envToJson (db : Db) (e : Setup.Env) : Json :=
+  let el := fun x => ofStr (renderElem db x)
+  Json.mkObj [("recs", mkObjS e.recs (fun (v : Ver) => Json.arr #[ofStr v.1, Json.num v.2])), ("dirs", mkObjS e.dirs el),
+              ("paths", mkObjS e.paths (fun l => Json.arr (l.map el).toArray)), ("vars", mkObjS e.vars el)]
+
+def reqOf (j : Json) : Except String Request := do
+  let ver ← match optField j "ver" with
+    | some v => pure (some (← verReqOf v))
+    | none => pure none
+  let md ← jint j "max_depth"
+  pure ⟨← jstr j "name", ver, ← jbool j "keep", if md < 0 then none else some md.toNat,
+        ← jbool j "inexact", ← jstrs j "tags", ← (← jarr j "path").mapM fun x => x.getNat?⟩
+
+def vroToJson (v : VroEnt) : Json :=
+  match v with
+  | .keep => "keep" | .typeExact => "type:exact" | .commandLine => "commandLine" | .version => "version"
+  | .versionBang => "version!" | .versionExpr => "versionExpr" | .tag t => ofStr t
+  | .path => "path" | .warn => "warn"
+
+def cmdToJson (db : Db) (c : Cmd) : Json :=
+  let el := fun x => ofStr (renderElem db x)
+  match c with
+  | .exportRec n v => Json.arr #["exportRec", ofStr n, ofStr v.1, Json.num v.2]
+  | .exportDir n x => Json.arr #["exportDir", ofStr n, el x]
+  | .exportPath var l => Json.arr #["exportPath", ofStr var, Json.arr (l.map el).toArray]
+  | .exportVar var x => Json.arr #["exportVar", ofStr var, el x]
+  | .unsetRec n => Json.arr #["unsetRec", ofStr n]
+  | .unsetDir n => Json.arr #["unsetDir", ofStr n]
+  | .unsetPath var => Json.arr #["unsetPath", ofStr var]
+  | .unsetVar var => Json.arr #["unsetVar", ofStr var]
+  | .aliasDef k v => Json.arr #["aliasDef", ofStr k, ofStr v]
+  | .aliasUnset k => Json.arr #["aliasUnset", ofStr k]
+  | .false_ => Json.arr #["false"]
+
+def stFields (db : Db) (s : St) : List (String × Json) :=
+  [("env", envToJson db s.env), ("aliases", mkObjS s.aliases ofStr), ("unaliased", ofStrs s.unaliased)]
+
+def handle : Handler := fun j => do
+  let op ← (← j.getObjVal? "op").getStr?
+  let fwd ← match op with
+    | "setup" => pure true
+    | "unsetup" => pure false
+    | _ => throw s!"unknown op {op}"
+  let db ← dbOf (← j.getObjVal? "db")
+  let env ← envOf db (← j.getObjVal? "env")
+  let req ← reqOf (← j.getObjVal? "req")
+  let fuel ← jnat j "fuel"
+  let res := if fwd then runSetup db fuel req env else runUnsetup db fuel req env
+  let emit : List (String × Json) := match appSetup db fuel fwd req env with
+    | .cmds l => [("emit", if l == [Cmd.false_] then "false" else "cmds"), ("cmds", Json.arr (l.map (cmdToJson db)).toArray)]
+    | .raised => [("emit", "raised")]
+    | .fuel => [("emit", "fuel")]
+  let vro := ("vro", Json.arr (req.vro.map vroToJson).toArray)
+  pure <| Json.mkObj <| vro :: emit ++ match res with
+    | .ok s => ("out", "ok") :: stFields db s
+    | .notFound s => ("out", "notfound") :: stFields db s
+    | .raised s => ("out", "raised") :: stFields db s
+    | .fuel => [("out", "fuel")]
+
 end EupsModel.Drv.C01
